@@ -50,6 +50,16 @@ def pr_step(ctx, npre, sym=True, vals=None):
         wbs.append(w)
     existing = []
     created = []
+    V = {}
+    # the robot may have (re-)created an integration branch in this very job although an open
+    # integration pull request for it is still on the host (the branch was deleted by hand, or a
+    # reset could not decline the pull request): `newly_created` is free
+    for k in range(1, len(wbs)):
+        if sym:
+            V['nc%d' % k] = z3.Bool('newly_created%d' % k)
+            wbs[k].newly_created = ctx.decide(V['nc%d' % k])
+        else:
+            wbs[k].newly_created = bool(vals.get('nc%d' % k, False))
 
     class HPR:
         def __init__(self, pid, src, dst, status, title=''):
@@ -57,7 +67,6 @@ def pr_step(ctx, npre, sym=True, vals=None):
 
     parent = HPR(1, SRC, SHAPE[0], 'OPEN', 'Fix the thing')
     existing.append(parent)
-    V = {}
     for i in range(npre):
         if sym:
             s = z3.Int('src%d' % i)
